@@ -332,6 +332,7 @@ class CallMixin:
             st.vars = dict(saved)
             for i, a in enumerate(args):
                 st.vars["arg%d" % i] = (a, True)
+            st.vars["ret"] = (res, True)
             saved_res = st.ghost.get("result")
             st.ghost["result"] = res
             for e in desc.get("ensures", []):
